@@ -243,7 +243,7 @@ def run(ctx):
     ftdiff.run(ctx, rng, 60 * k, ops=("flatten", "unflatten", "swizzle"))
     ftdiff.run_fibers(ctx, rng, 80 * k)
     n = 2 if ctx.tier == "quick" else 3
-    recs = pool.collect(ctx, [dict(gen="g3", count=110 * k, modes=["plain"], nexec=n, reference=True), dict(gen="g3z", count=20 * k, modes=["plain"], nexec=n, reference=True), dict(gen="g3dd", count=10 * k, modes=["plain"], nexec=n, reference=True), dict(gen="g3v", count=12 * k, modes=["plain"], nexec=n, reference=True), dict(gen="g3u", count=12 * k, modes=["plain"], nexec=n, reference=True),
+    recs = pool.collect(ctx, [dict(gen="g3", count=110 * k, modes=["plain"], nexec=n, reference=True), dict(gen="g3z", count=20 * k, modes=["plain"], nexec=n, reference=True), dict(gen="g3dd", count=10 * k, modes=["plain"], nexec=n, reference=True), dict(gen="g3ff", count=8 * k, modes=["plain"], nexec=n, reference=True), dict(gen="g3v", count=12 * k, modes=["plain"], nexec=n, reference=True), dict(gen="g3u", count=12 * k, modes=["plain"], nexec=n, reference=True),
                               dict(gen="g3w", count=12 * k, modes=["plain"], nexec=n, reference=True)])
     c02.check_records(ctx, recs)
     recs2 = pool.collect(ctx, [dict(gen="g3", count=30 * k, modes=["plain"], nexec=n, opts={"variant": "occ"}),
